@@ -566,7 +566,8 @@ def main(argv):
                             time.time() - t_start)
         os.makedirs(EVID_DIR, exist_ok=True)
         # partial runs (--only) never overwrite the evidence of record
-        with open(os.path.join(EVID_DIR, (".partial-" if a.only else "") + pid + ".json"), "w") as f:
+        # ... and neither do runs against a tree other than /repo (seeded-change evaluation)
+        with open(os.path.join(EVID_DIR, (".partial-" if (a.only or REPO != "/repo") else "") + pid + ".json"), "w") as f:
             json.dump(ev, f, indent=1)
         # ---- verdict ----
         for o, path, confirmed in real_violations:
